@@ -11,5 +11,5 @@ Separate Extraction
   Concrete.m_and Concrete.m_or Concrete.m_not Concrete.m_disjoint Concrete.m_eval Concrete.m_wfb Concrete.m_eqb
   Concrete.m_simplify_extras Concrete.m_eval_extras Concrete.m_val_cmp Concrete.m_var_cmp
   Concrete.substring Concrete.is_range
-  Concrete.m_eval_extras_pv ExtrasProofs.m_with_extra
+  Concrete.m_simplify_pv Concrete.m_complexify_pv Concrete.m_eval_extras_pv ExtrasProofs.m_with_extra
   Expr.expression Expr.spec_range Expr.normalize_spec Expr.strip.
